@@ -305,6 +305,50 @@ def r03_5(ctx, fx):
                        detail="other state variants stored on a path from the %s arm to Pending: %s" % (var, bad))
 
 
+def r03_6(ctx, fx):
+    """the message-based (WebRTC) dialer proposes its fallback names in the caller's preference order: the list is consumed by an
+    order-preserving idiom only - `reverse()` once at construction + `pop()`, or `remove(0)` / a front pop without a reverse.
+    (`swap_remove`, `pop` without the reverse, sorting ... change which common protocol both sides settle on.)"""
+    W = "multistream_select::dialer_select::WebRtcDialerState::"
+    pf = ctx.fn(fx, W + "propose", "R03.6")
+    nf = ctx.fn(fx, W + "propose_next_fallback", "R03.6")
+    if pf is None or nf is None:
+        return
+    reversed_at_ctor = False
+    for n, s_ in pf.aggregates(r"dialer_select::WebRtcDialerState$"):
+        rv = s_["rv"]
+        if "fallback_names" in rv.get("fields", []):
+            rs = guards.rootstrs(pf, rv["ops"][rv["fields"].index("fallback_names")])
+            revs = [c for c in pf.calls(r"slice::reverse$") if any(x.startswith("param:_2") for x in guards.rootstrs(pf, c.args[0]))]
+            reversed_at_ctor = len(revs) == 1 and n not in pf.reach([pf.entry], avoid=[revs[0].node])
+            other = sorted(x for x in rs if x.startswith("mutcall:") and not x.endswith("slice::reverse") and not x.endswith("DerefMut>::deref_mut"))
+            ctx.ob("R03.6", "propose/fallback-list-stored-as-given(or reversed once)", not other and any(x.startswith("param:_2") for x in rs), site=pf.site(n), cfg=fx.cfg,
+                   detail="roots of the stored list: %s" % sorted(rs))
+    takes = [c for c in nf.calls() if not c.from_macro and ".fallback_names" in nf.recv(c) and re.search(r"::(pop|remove|swap_remove|pop_front|pop_back|drain|split_off|truncate|sort\w*|retain|dedup\w*|rotate_\w+)$", c.name)]
+    ctx.anchor("R03.6", "propose_next_fallback: removal from fallback_names", len(takes), 1, cfg=fx.cfg)
+    for i, c in enumerate(takes):
+        m = c.name.rsplit("::", 1)[-1]
+        if m == "pop" and "Vec" in c.name:
+            ok = reversed_at_ctor
+            why = "Vec::pop takes the last element: needs the single reverse() at construction (found: %s)" % reversed_at_ctor
+        elif m == "remove" and "Vec" in c.name:
+            ok = (not reversed_at_ctor) and len(c.args) > 1 and nf.const_value(c.args[1]) == 0
+            why = "Vec::remove(0) on the un-reversed list"
+        elif m == "pop_front":
+            ok = not reversed_at_ctor
+            why = "front pop on the un-reversed list"
+        else:
+            ok = False
+            why = "`%s` does not preserve the preference order" % m
+        ctx.ob("R03.6", "propose_next_fallback/take#%d-preserves-the-preference-order" % i, ok, site=nf.site(c.node), cfg=fx.cfg, detail=why)
+    # the proposed name is the one taken
+    for n, s_ in nf.assigns():
+        if "".join(str(x) for x in s_["lhs"][1:]).endswith(".protocol") and s_["rv"]["r"] == "use":
+            rs = guards.rootstrs(nf, s_["rv"]["o"])
+            ctx.ob("R03.6", "propose_next_fallback/next-proposal-is-the-element-taken", any(x.startswith("call:") or x.startswith("mutcall:") for x in rs if re.search(r"::(pop|remove|pop_front)$", x)),
+                   site=nf.site(n), cfg=fx.cfg, detail=str(sorted(rs)))
+
+
 def run(ctx):
     fx = ctx.facts("default")
     r03_5(ctx, fx)
@@ -312,5 +356,6 @@ def run(ctx):
     r03_2(ctx, fx)
     r03_3(ctx, fx)
     r03_4(ctx, fx)
+    r03_6(ctx, fx)
     ctx.assume("Protocol equality is byte equality of the names; MessageIO frames/deframes whole messages (C19 covers its decoder)")
     ctx.assume("agreement on the first common protocol, termination and fragmentation independence are NOT decided (values / histories / foreign peer)")
